@@ -83,3 +83,63 @@ Example C15_other_namespace_example :
   | _ => False
   end.
 Proof. vm_compute. reflexivity. Qed.
+
+(* ---------- values are redacted as without the flag ---------- *)
+From Proofs Require Import JsonFacts TableFacts WalkerRel Survivors SurvivorsLine RfnSim RfnLine.
+From Model Require Import Email.
+From Gen Require Import Tables Consts.
+
+(* Each of the three walkers, run with the field-name switch on, emits - at every CLEAR index path
+   (one that passes below no key the tables classify as not redactable: field-path, namespace and
+   exempt arguments are where field-name mode differs by design) - every leaf that is not a '$field'
+   reference exactly as the same walker emits it with the switch off. For ANY tables, any flags
+   outside the selective mode (which excludes --redactFieldNames anyway, C18), any leaf actions.
+   Positions are index paths: [sib_ok] asks that the pseudonym function does not merge two sibling
+   keys of the input (then the renamed members keep their count and order, cf. C15_count_and_order). *)
+Theorem C15_values_as_without_the_flag_walkers : forall tb cs c A t m p leaf,
+  re c = None -> sib_ok A t -> nodup_keys t ->
+  jget t p = Some leaf -> is_leaf leaf -> nd leaf -> clear tb t p = true ->
+  jget (walk tb cs c is_email A (setrfn true m) t) p = jget (walk tb cs c is_email A (setrfn false m) t) p.
+Proof.
+  intros tb cs c A t m p leaf Hre Hk Hn Hg Hl Hd Hc. symmetry.
+  exact (walk_rfn_pl tb cs c is_email A Hre t m Hk Hn p leaf Hg Hl Hd Hc).
+Qed.
+Print Assumptions C15_values_as_without_the_flag_walkers.
+
+(* the same for every query-bearing value of a command document *)
+Theorem C15_values_as_without_the_flag : forall tb cs c A ins k v p leaf,
+  re c = None -> sib_ok A v -> nodup_keys v ->
+  jget v p = Some leaf -> is_leaf leaf -> nd leaf -> clear tb v p = true ->
+  jget (cmd_member tb cs c A true ins k v) p = jget (cmd_member tb cs c A false ins k v) p.
+Proof.
+  intros tb cs c A ins k v p leaf Hre Hk Hn Hg Hl Hd Hc. symmetry.
+  exact (cmd_member_pl tb cs c A Hre ins k v Hk Hn p leaf Hg Hl Hd Hc).
+Qed.
+Print Assumptions C15_values_as_without_the_flag.
+
+(* non-vacuity: the premises hold for a filter with three fields and the real pseudonym function *)
+Open Scope string_scope.
+Definition c15_c := {| repl := "REDACTED"; nums := true; bools := false; ips := false; nss := false; eager := ["shop."]; re := None |}.
+Definition c15_filter : json := JObj [("owner", JStr "alice"); ("age", JObj [("$gte", JNum "41")]); ("tags", JArr [JStr "x"; JStr "$ref"])].
+Example C15_values_example_premises :
+  sib_ok (real_actions current_consts c15_c None) c15_filter /\ nodup_keys c15_filter /\
+  clear current c15_filter [1; 0] = true /\ clear current c15_filter [2; 0] = true.
+Proof.
+  split; [|split; [|split; vm_compute; reflexivity]].
+  - assert (K : forall ks, (forall k1 k2, In k1 ks -> In k2 ks -> k1 <> k2 ->
+                 hash_name "REDACTED" k1 <> hash_name "REDACTED" k2 /\ hash_name "REDACTED" k1 <> k2) ->
+               keys_ok (real_actions current_consts c15_c None) ks) by (intros ks H; exact H).
+    cbn [sib_ok c15_filter map fst snd]. split; [|split; [exact I | split; [|split; [|exact I]]]].
+    + apply K. intros k1 k2 H1 H2 Hne. cbn [In] in H1, H2.
+      destruct H1 as [<-|[<-|[<-|[]]]], H2 as [<-|[<-|[<-|[]]]]; try (exfalso; apply Hne; reflexivity); vm_compute; split; discriminate.
+    + split; [|split; exact I]. apply K. intros k1 k2 H1 H2 Hne. cbn [In] in H1, H2. destruct H1 as [<-|[]], H2 as [<-|[]]. exfalso; apply Hne; reflexivity.
+    + split; [exact I | split; exact I].
+  - cbn. repeat split; try exact I; repeat constructor; cbn; intuition discriminate.
+Qed.
+Example C15_values_example :
+  let A := real_actions current_consts c15_c None in
+  jget (cmd_member current current_consts c15_c A true false "filter" c15_filter) [1; 0] = Some (JNum "0") /\
+  jget (cmd_member current current_consts c15_c A false false "filter" c15_filter) [1; 0] = Some (JNum "0") /\
+  jget (cmd_member current current_consts c15_c A true false "filter" c15_filter) [0] = Some (JStr "REDACTED") /\
+  jget (cmd_member current current_consts c15_c A true false "filter" c15_filter) [2; 0] = Some (JStr "REDACTED").
+Proof. vm_compute. repeat split; reflexivity. Qed.
